@@ -75,9 +75,12 @@ def calls(rng, thorough):
         dur = rng.randrange(1, 1440)
         out.append((" W|2349", "set_zone_mode", (CTL, z), {"mode": "countdown_override", "setpoint": sp, "duration": dur},
                     {"zone_idx": f"{z:02X}", "mode": "countdown_override", "setpoint": sp, "duration": dur}, True))
-        for fn, tot in ((1, 0), (2, 3), (3, 3), (2, 2)):
-            out.append(("RQ|0404", "get_schedule_fragment", (CTL, z, fn, tot or None), {}, {"zone_idx": f"{z:02X}", "frag_number": fn}, True))
+        # fragment numbers and counts on both sides of 9 / 15 (where decimal, hex and two-digit spellings part ways)
+        for fn, tot in ((1, 0), (2, 3), (3, 3), (2, 2), (9, 10), (10, 10), (10, 12), (15, 16), (16, 17), (rng.randrange(10, 30), 30)):
+            out.append(("RQ|0404", "get_schedule_fragment", (CTL, z, fn, tot or None), {}, {"zone_idx": f"{z:02X}", "frag_number": fn, **({"total_frags": tot} if tot else {})}, True))
         out.append((" W|0404", "set_schedule_fragment", (CTL, z, 1, 3, "AB" * rng.randrange(1, 42)), {}, {"zone_idx": f"{z:02X}", "frag_number": 1, "total_frags": 3}, True))
+        for fn, tot in ((10, 11), (11, 11), (16, 20)):
+            out.append((" W|0404", "set_schedule_fragment", (CTL, z, fn, tot, "CD" * rng.randrange(1, 42)), {}, {"zone_idx": f"{z:02X}", "frag_number": fn, "total_frags": tot}, True))
     for hw in ("HW", "FA", 0xFA):       # the three documented spellings of the DHW schedule
         out.append(("RQ|0404", "get_schedule_fragment", (CTL, hw, 1, None), {}, {"zone_idx": "HW", "frag_number": 1}, True))
         out.append(("RQ|0404", "get_schedule_fragment", (CTL, hw, 2, 3), {}, {"zone_idx": "HW", "frag_number": 2, "total_frags": 3}, True))
